@@ -34,6 +34,15 @@ type Bridge struct {
 	ServerRequests []*http.Request
 	Wire           [][]byte
 	Exchanges      int
+	// HandlerPanics: panics that came out of the handler (each aborted its exchange)
+	HandlerPanics []string
+}
+
+// HandlerPanicError is what the client side gets when the server's handler panicked.
+type HandlerPanicError struct{ Panic string }
+
+func (e *HandlerPanicError) Error() string {
+	return "bridge: the server aborted the connection (handler panicked: " + e.Panic + ")"
 }
 
 type pullReader struct {
@@ -118,7 +127,12 @@ func (b *Bridge) RoundTrip(req *http.Request) (*http.Response, error) {
 	b.ServerRequests = append(b.ServerRequests, sreq)
 	rec := httptest.NewRecorder()
 	op := b.Env.Begin(name, "serve", nil, nil)
-	b.Handler.ServeHTTP(rec, sreq)
+	if pm := kernel.Catch(func() { b.Handler.ServeHTTP(rec, sreq) }); pm != "" {
+		// net/http's server recovers a handler panic and aborts the connection: the client gets no (complete) response
+		b.HandlerPanics = append(b.HandlerPanics, pm)
+		op.End("handler panicked: connection aborted")
+		return nil, &HandlerPanicError{Panic: pm}
+	}
 	op.End("%d", rec.Code)
 	res := rec.Result()
 	var wire2 bytes.Buffer
